@@ -199,8 +199,10 @@ func (p *Program) verifyFunc(key string, safetyOnly bool) *FuncResult {
 		o.ExpectSat = true
 	}
 	fr.run(st, True)
+	e.curBlock = -1
 	// postconditions at each return
 	for ri, rp := range fr.rets {
+		e.curBlock = rp.block
 		renv := &SpecEnv{e: e, st: rp.st, vars: map[string]Val{}, old: env.old}
 		rienv := &SpecEnv{e: e, st: rp.st, vars: map[string]Val{}, old: ienv.old}
 		for _, prm := range fn.Params {
@@ -238,6 +240,7 @@ func (p *Program) verifyFunc(key string, safetyOnly bool) *FuncResult {
 			_ = ri
 		}
 	}
+	e.curBlock = -1
 	// vacuity guard: some return point must be reachable under the assumptions made
 	if len(fr.rets) > 0 {
 		var pcs []Term
